@@ -1140,10 +1140,10 @@ VARIANTS['C13'] += [
 ]
 VARIANTS['C14'] += [
     V('neutral: presence of the splice time in a local',
-      [('dashlive/scte35/splice_time.py', "        if self.pts is None:\n            w.write(1, 'time_specified_flag', value=0)\n        else:\n            w.write(1, 'time_specified_flag', value=1)\n",
-        "        has_pts = self.pts is not None\n        if not has_pts:\n            w.write(1, 'time_specified_flag', value=0)\n        else:\n            w.write(1, 'time_specified_flag', value=1)\n")], None),
+      [('dashlive/scte35/splice_time.py', "        if self.pts is None:\n            w.write(1, 'time_specified_flag', value=0)\n",
+        "        has_pts = self.pts is not None\n        if not has_pts:\n            w.write(1, 'time_specified_flag', value=0)\n")], None),
     V('splice time present when the pts is true',
-      [('dashlive/scte35/splice_time.py', "        if self.pts is None:\n            w.write(1, 'time_specified_flag', value=0)\n        else:\n", "        if not self.pts:\n            w.write(1, 'time_specified_flag', value=0)\n        else:\n")],
+      [('dashlive/scte35/splice_time.py', "        if self.pts is None:\n            w.write(1, 'time_specified_flag', value=0)\n", "        if not self.pts:\n            w.write(1, 'time_specified_flag', value=0)\n")],
       'R14.10', 'SpliceTime.encode'),
 ]
 VARIANTS['C19'] += [
@@ -1323,4 +1323,81 @@ VARIANTS['C18'] += [
       [(VMS, "            self.elt.check_almost_equal(\n                self.expected_decode_time,\n                self.decode_time,\n                delta=self.tolerance,\n                msg=msg)\n",
         "            self.elt.check_less_than_or_equal(abs(tc_diff), self.tolerance, msg=msg)\n")],
       None),
+]
+
+VARIANTS['C17'] += [
+    V('legacy prefix applied after the stream to replace was looked up',
+      [(STRMF, "        if 'prefix' in params:\n            data['directory'] = params['prefix']\n        result = {}\n", "        result = {}\n"),
+       (STRMF, "        st = models.Stream(**data)\n        st.add(commit=True)\n", "        if 'prefix' in params:\n            data['directory'] = params['prefix']\n        st = models.Stream(**data)\n        st.add(commit=True)\n")],
+      'R17.10', 'add_stream'),
+]
+
+VARIANTS['C20'] += [
+    V('seek from the end adds the window start instead of the argument',
+      [(BR, "            self.pos = self.size + offset\n", "            self.pos = self.size + self.offset\n")], 'R20.8', 'seek'),
+    V('relative seek replaces the position',
+      [(BR, "        elif whence == io.SEEK_CUR:\n            self.pos += offset\n", "        elif whence == io.SEEK_CUR:\n            self.pos = offset\n")],
+      'R20.8', 'seek'),
+    V('seek from the end subtracts the argument',
+      [(BR, "            self.pos = self.size + offset\n", "            self.pos = self.size - offset\n")], 'R20.8', 'seek'),
+    V('neutral: seek from the end written argument first',
+      [(BR, "            self.pos = self.size + offset\n", "            end = self.size\n            self.pos = offset + end\n")], None),
+]
+
+VARIANTS['C20'] += [
+    V('read returns a text literal at the end of the window',
+      [(BR, "            n = min(n, self.size - self.pos)\n            if n <= 0:\n                return b''\n", "            n = min(n, self.size - self.pos)\n            if n <= 0:\n                return ''\n")],
+      'R20.9', 'read'),
+]
+
+VARIANTS['C16'] += [
+    V('payload of an empty box peeked at',
+      [(MP4, "                if sz == 0:\n                    encoded = b''\n                else:\n                    encoded = src.peek(sz)[:sz]\n                    if len(encoded) < sz:\n                        p: int = src.tell()\n                        assert p is not None\n                        encoded = src.read(sz)\n                        src.seek(p)\n",
+        "                encoded = src.peek(sz)[:sz]\n                if len(encoded) < sz:\n                    p: int = src.tell()\n                    assert p is not None\n                    encoded = src.read(sz)\n                    src.seek(p)\n")],
+      'R16.16', 'Mp4Atom.load'),
+    V('neutral: payload peeked at unless it is empty',
+      [(MP4, "                if sz == 0:\n                    encoded = b''\n                else:\n                    encoded = src.peek(sz)[:sz]\n",
+        "                encoded = b''\n                if sz > 0:\n                    encoded = src.peek(sz)[:sz]\n"),
+       (MP4, "                    if len(encoded) < sz:\n                        p: int = src.tell()\n                        assert p is not None\n                        encoded = src.read(sz)\n                        src.seek(p)\n",
+        "                    if len(encoded) < sz:\n                        p: int = src.tell()\n                        encoded = src.read(sz)\n                        src.seek(p)\n")],
+      None),
+]
+
+BSIG = 'dashlive/scte35/binarysignal.py'
+_CHAIN = "        if self.splice_schedule is not None:\n            self.splice_command_type = 4\n        elif self.splice_insert is not None:\n            self.splice_command_type = 5\n        elif self.time_signal is not None:\n            self.splice_command_type = 6\n        else:\n            self.splice_command_type = 0\n"
+VARIANTS['C14'] += [
+    V('splice_null default overwritten by the loop that looks for a command',
+      [(BSIG, _CHAIN, "        kind = 0\n        for kind, cmd in ((4, self.splice_schedule), (5, self.splice_insert), (6, self.time_signal)):\n            if cmd is not None:\n                break\n        self.splice_command_type = kind\n")],
+      'R14.11', 'encode_fields'),
+    V('neutral: command type found by a loop with an else branch for splice_null',
+      [(BSIG, _CHAIN, "        for kind, cmd in ((4, self.splice_schedule), (5, self.splice_insert), (6, self.time_signal)):\n            if cmd is not None:\n                break\n        else:\n            kind = 0\n        self.splice_command_type = kind\n")],
+      None),
+]
+
+VARIANTS['C11'] += [
+    V('licence URL default_kid filled from the loop variable left over after the key loop',
+      [('dashlive/drm/playready.py', "default_kid=default_keypair.KID.hex", "default_kid=keypair.KID.hex")],
+      'R11.7', 'generate_wrmheader'),
+]
+
+VARIANTS['C04'] += [
+    V('extended type of a uuid box not kept in the raw header',
+      [(MP4, "            uuid_data = src.read(16)\n            buf.append(uuid_data)\n", "            uuid_data = src.read(16)\n")],
+      'R04.10', 'Mp4Atom.parse'),
+    V('64-bit size not kept in the raw header',
+      [(MP4, "            size_ext = src.read(8)\n            buf.append(size_ext)\n", "            size_ext = src.read(8)\n")],
+      'R04.10', 'Mp4Atom.parse'),
+    V('neutral: raw header collected by concatenation',
+      [(MP4, "            uuid_data = src.read(16)\n            buf.append(uuid_data)\n", "            uuid_data = src.read(16)\n            buf = buf + [uuid_data]\n")],
+      None),
+]
+
+VARIANTS['C14'] += [
+    V('splice_time without a pts written as the flag bit alone',
+      [('dashlive/scte35/splice_time.py', "            w.write(1, 'time_specified_flag', value=0)\n            w.write(7, 'reserved', 0x7F)\n", "            w.write(1, 'time_specified_flag', value=0)\n"),
+       ('dashlive/scte35/splice_time.py', "            r.get(7, 'reserved')\n            kwargs['pts'] = None\n", "            kwargs['pts'] = None\n")],
+      'R14.12', 'SpliceTime'),
+    V('splice_time reader skips six reserved bits after a clear flag',
+      [('dashlive/scte35/splice_time.py', "            r.get(7, 'reserved')\n            kwargs['pts'] = None\n", "            r.get(6, 'reserved')\n            kwargs['pts'] = None\n")],
+      'R14.1', 'SpliceTime'),
 ]
